@@ -194,6 +194,7 @@ type frame struct {
 	cellClo map[*ssa.Alloc]*Closure
 	dbg     map[string]ssa.Value
 	dbgAll  map[string][]ssa.Value
+	allocsByName map[string][]*ssa.Alloc
 	snap    map[ssa.Value][2]Term
 }
 
